@@ -191,7 +191,7 @@ func c14Annotation(c *core.Ctx, k *tkit) {
 		va := k.iv(k.VAR, 0, k.VAR, 0)
 		va.Fields["Start"].(*ordabs.Rec).Fields["Variable"].(*ordabs.Rec).Fields["Symbol"] = "S"
 		va.Fields["End"].(*ordabs.Rec).Fields["Variable"].(*ordabs.Rec).Fields["Symbol"] = "E"
-		got, ok = run(va, x)
+		got, ok := run(va, x)
 		if !ok {
 			return
 		}
